@@ -1,4 +1,6 @@
 pub mod c01;
+pub mod c02;
+pub mod c04;
 
 use crate::engine::{Env, Stats, Violation};
 use serde_json::Value;
@@ -6,6 +8,8 @@ use serde_json::Value;
 pub fn run(env: &Env) -> Option<i32> {
     Some(match env.prop.as_str() {
         "C01" => c01::run(env),
+        "C02" => c02::run(env),
+        "C04" => c04::run(env),
         _ => return None,
     })
 }
@@ -13,6 +17,8 @@ pub fn run(env: &Env) -> Option<i32> {
 pub fn replay(env: &Env, check: &str, case: &Value, st: &mut Stats) -> Option<Vec<Violation>> {
     Some(match env.prop.as_str() {
         "C01" => c01::replay(env, check, case, st),
+        "C02" => c02::replay(env, check, case, st),
+        "C04" => c04::replay(env, check, case, st),
         _ => return None,
     })
 }
